@@ -3,4 +3,4 @@
 From Coq Require Import ExtrOcamlBasic.
 From BL Require Import Extract.Api.
 Extraction Language OCaml.
-Extraction "model.ml" Api.api Api.api_queue Api.api_session Api.site_source Api.api_mser.
+Extraction "model.ml" Api.api Api.api_queue Api.api_session Api.api_session_state Api.site_source Api.api_mser.
